@@ -393,10 +393,11 @@ def _is_gridlike(v):
     return hasattr(v, "points") and hasattr(v, "weights") and not isinstance(v, np.ndarray)
 
 
-def public_arrays(obj, depth=1, prefix=""):
+def public_arrays(obj, depth=3, prefix=""):
     """Every mutable array-valued PUBLIC attribute of ``obj`` found by introspection (properties and public instance
     attributes): name -> ndarray or list of numbers.  Grid-valued attributes (``rgrid``) and lists of grids (``atgrids``)
-    are followed one level (``rgrid.points``, ``atgrids[0].weights``).  Nothing is assumed about the class."""
+    are followed ``depth`` levels (``rgrid.points``, ``atgrids[0].weights``, ``atgrids[1].rgrid.points``): a walk of the
+    public attribute graph, nothing is assumed about the classes."""
     import inspect
 
     out = {}
@@ -510,3 +511,52 @@ def check_request(ctx, subj, g, method, degree, size, detail=None):
     else:
         ctx.count("cold-reference-not-available-for-row")
     return ok
+
+
+# ---------------------------------------------------------------------------------------------- cold molecular reference
+_cold_mol = {}
+
+_COLD_MOL_SCRIPT = r"""
+import sys, json, hashlib, warnings
+warnings.simplefilter("ignore")
+import numpy as np
+from grid.molgrid import MolGrid
+out = []
+for i, (ctor, atnums, coords, kw) in enumerate(json.loads(sys.stdin.read())):
+    m = getattr(MolGrid, ctor)(np.array(atnums), np.array(coords, dtype=float), **kw)   # rgrid=None: default radial grids
+    h = lambda a: hashlib.blake2b(np.ascontiguousarray(a).tobytes(), digest_size=16).hexdigest()
+    out.append([i, int(m.size), h(m.points), h(m.weights)])
+print("COLD" + json.dumps(out))
+"""
+
+
+def mol_kwargs(cfg):
+    """Keyword arguments of a default-radial-grid molecular constructor configuration (JSON-able form -> call form)."""
+    ctor, atnums, coords, kw = cfg
+    return dict(kw)
+
+
+def cold_mol_reference(configs):
+    """(size, digest(points), digest(weights)) of each molecular configuration as built by a COLD process."""
+    import json
+    import os
+    import subprocess
+
+    from gridrv import core
+
+    if not _cold_mol:
+        env = dict(os.environ)
+        env["PYTHONPATH"] = core.SRC
+        env["PYTHONDONTWRITEBYTECODE"] = "1"
+        p = subprocess.run([sys.executable, "-c", _COLD_MOL_SCRIPT], input=json.dumps(configs), capture_output=True, text=True, env=env, timeout=600)
+        line = [ln for ln in p.stdout.splitlines() if ln.startswith("COLD")]
+        if p.returncode != 0 or not line:
+            raise RuntimeError("cold-process molecular reference failed: " + (p.stderr or p.stdout)[-300:])
+        for i, size, hp, hw in json.loads(line[0][4:]):
+            _cold_mol[i] = (size, hp, hw)
+    return _cold_mol
+
+
+def mol_digest(mol):
+    h = lambda a: hashlib.blake2b(np.ascontiguousarray(a).tobytes(), digest_size=16).hexdigest()  # noqa: E731
+    return (int(mol.size), h(mol.points), h(mol.weights))
